@@ -1,6 +1,7 @@
 import Zstd.Props.C01
 import Zstd.Proofs.FrameDecoderStandIn
 import Zstd.Proofs.FrameFaithful
+import Zstd.Proofs.FrameLegal
 import Zstd.Proofs.BlockNoFault
 /-
 C03 — no input can make decoding panic, corrupt memory or hang.
@@ -13,10 +14,31 @@ C12/C13.  This file: sequence execution and the frame level.  `C03_full` is the 
 namespace Zstd.Props.C03
 open Zstd Zstd.Model
 
-/-- the full statement for the block-decoding entry point: whatever the source bytes and the
-decoder state, `decode_blocks` returns a value or an error, never a fault -/
-def C03_full : Prop :=
+/-- the statement over the Spec stand-in (instance A), as it was worded before the executable model
+became the faithful one: whatever the source bytes and the decoder state, `decode_blocks` returns a
+value or an error, never a fault (`decodeBlocks_no_fault`) -/
+def C03_full_standIn : Prop :=
   ∀ (d : DecA) (s : Src) (strat : Strategy) (f : Fault), (d.decodeBlocks s strat).2 ≠ .fault f
+
+/-- **the full statement, over the EXECUTABLE model** (`DecB`: the frame-level model with the faithful
+block decoder, the one engines `dec` / `hostile` compare with the real code): from every decoder state
+reachable by a legal call sequence of the public API (`Legal`, Proofs/FrameLegal.lean: `new`,
+`set_max_window_size`, `add_dict` of ANY bytes `decode_dict` accepts, `force_dict`, `reset` / `init`,
+every drain, `decode_blocks`, `decode_from_to`, `StreamingDecoder::read`, `decode_all`,
+`decode_all_to_vec`, on ANY byte arguments) no entry point ever panics:
+* the dictionary parser, `reset`, `decode_all` and `decode_all_to_vec` from EVERY reachable state,
+* `decode_blocks`, `decode_from_to` and `StreamingDecoder::read` from every reachable state in which
+  decoding on is allowed — i.e. unless the current frame's last decode call ended in `err literals` /
+  `err sequences` (after which the caller may drain, query, `reset`, `decode_all`, but the documentation
+  does not allow decoding on; `continue_after_error_faults_*` below show that restriction is necessary).
+Proved: `no_fault_from_legal_states`. -/
+def C03_full : Prop :=
+  ∀ (d : DecB) (ok : Bool), Legal d ok → ∀ (s : Src), (∀ x ∈ s, x < 256) → ∀ (f : Fault),
+    Blk.decodeDict s ≠ .error f ∧
+    (∀ room vec, (d.reset s).2 ≠ .fault f ∧ (d.decodeAll s room).2 ≠ .fault f ∧
+      (d.decodeAllToVec s vec room).2.2 ≠ .fault f) ∧
+    (ok = true → ∀ strat n, (d.decodeBlocks s strat).2 ≠ .fault f ∧ (d.decodeFromTo s n).2 ≠ .fault f ∧
+      (streamingRead d s n).2 ≠ .fault f)
 
 /-- `execute_sequences` cannot panic: its only panic site (the `offset_value - 3` underflow) needs
 an offset value of 0, which no sequence carries -/
@@ -167,9 +189,9 @@ end generic
 theorem decodeOneBlock_no_fault (st : FState Spec.Entropy) (s : Src) (f : Fault) : (decodeOneBlock st s).2 ≠ .fault f :=
   (decodeOneBlock_noFault st s trivial trivial).2 f
 
-/-- `C03_full` holds: `decode_blocks` returns a value or an error, never a fault — every state (also
+/-- `C03_full_standIn` holds: `decode_blocks` returns a value or an error, never a fault — every state (also
 states left behind by earlier errors), every source, every strategy (stand-in instance) -/
-theorem decodeBlocks_no_fault : C03_full :=
+theorem decodeBlocks_no_fault : C03_full_standIn :=
   fun d s strat f => (Decoder.decodeBlocks_noFault d s strat (entWF_standIn d) trivial).2.2.1 f
 
 /-- `reset`/`init` never faults -/
@@ -437,6 +459,34 @@ example : (match ((({} : DecB).reset loneCountByte).1.decodeBlocks (loneCountByt
 
 example : (match ((({} : DecB).reset strayByteAfterZeroCount).1.decodeBlocks (strayByteAfterZeroCount.drop 6) .all).2 with
   | .err .sequences => true | _ => false) = true := by decide +kernel
+
+/-- **`C03_full` holds.** -/
+theorem no_fault_from_legal_states : C03_full := by
+  intro d ok hl s hs f
+  obtain ⟨hd, hw⟩ := hl.inv
+  refine ⟨decodeDict_no_fault hs f, fun room vec => ⟨(Decoder.reset_noFault d s hd).2.1 f, ?_, ?_⟩, fun hok strat n => ?_⟩
+  · exact (decodeAllLoop_noFault _ d s room #[] hd hs).2.1 f
+  · rw [Decoder.decodeAllToVec_eq]
+    have := (decodeAllLoop_noFault (s.length + 1) d s room #[] hd hs).2.1
+    cases hda : d.decodeAll s room with
+    | mk d' o =>
+      cases o with
+      | ok out => simp
+      | err e => simp
+      | fault f' => exact absurd (by rw [Decoder.decodeAll] at hda; rw [hda]) (this f')
+  · exact ⟨(Decoder.decodeBlocks_noFault d s strat (hw hok) hs).2.2.1 f,
+      (Decoder.decodeFromTo_noFault d s n (hw hok) hs).2.2 f, (streamingRead_noFault d s n (hw hok) hs).2.2 f⟩
+
+/-- the offset history a hostile dictionary installs may contain 0 (`decode_dict` copies the three
+values unchecked): `do_offset_history` never faults on ANY history for offset values ≥ 1 (the
+`rep[0] − 1` arm saturates), and a resulting offset 0 is rejected by `execute_sequences` as `ZeroOffset`
+before any copy — so `Legal` needs no condition on the dictionary's offsets -/
+theorem zero_history_is_harmless (ov ll : Nat) (h : Nat × Nat × Nat) (hov : ov ≥ 1) :
+    ∃ r, doOffsetHistory ov ll h = .ok r :=
+  C01.doOffsetHistory_no_fault ov ll h hov
+
+example : (match (executeSequences [⟨0, 3, 3⟩] [] (0, 0, 0) 0 {}).2, (executeSequences [⟨1, 3, 1⟩] [7] (0, 0, 0) 0 {}).2 with
+    | .err .execZeroOffset, .err .execZeroOffset => true | _, _ => false) = true := by decide
 
 end faithful
 
